@@ -6,6 +6,7 @@ import random
 from decimal import Decimal
 
 ID = 'C19'
+TECHNIQUE = 'runtime monitor: range/identity assertions on every draw, incl. extreme outputs of the underlying generator and varying bounds at one call site'
 RULE = ('inputs: rand() ; rand(a, b) for integer-valued a <= b given as source literals (incl. unary minus), host ints, '
         'host Decimals (plain and with positive exponent), integer-valued host floats and bools, a == b, negative, spanning '
         'zero, up to 10^30 wide ; rand(list) and shuffle(list) for host and program-built lists (length 1-50, duplicates, '
